@@ -877,6 +877,10 @@ func (ft *FT) loopHead(li *loopInfo, st *State, guard Term, phiVals map[*ssa.Phi
 		ft.env[phi] = []Term{t}
 		hov[phi] = t
 		ft.assume("true", ft.typeInv(t, phi.Type(), hs))
+		if phi.Comment == "rangeindex" {
+			// implicit invariant of every range-over-slice loop: starts at -1 and only increments
+			ft.assume("true", app("<=", "(- 1)", t))
+		}
 	}
 	li.headState = hs.clone()
 	li.headOv = hov
